@@ -171,6 +171,16 @@ func (ec *evalCtx) specCall(call *ast.CallExpr) Value {
 	case "int", "int64", "int32", "uint32", "uint8", "byte", "rune", "uint", "uint64", "string":
 		need(1)
 		return arg(0)
+	case "chr":
+		need(1)
+		return FromCode(scalar(arg(0)))
+	case "jsunit":
+		need(1)
+		t := scalar(arg(0))
+		if !t.IsStr() {
+			panic(unsupported("jsunit needs a constant string"))
+		}
+		return Int(jsUnitValue(t.Str))
 	case "isnil":
 		need(1)
 		return ec.eqValues(arg(0), nilMarker{})
@@ -275,4 +285,61 @@ func writerKey(ec *evalCtx, w Value) string {
 		return x.Key()
 	}
 	panic(unsupported("writer identity of %T", w))
+}
+
+// jsUnitValue: the code point denoted by a single JavaScript string escape
+// (ECMAScript EscapeSequence), or -1 if s is not exactly one escape.
+func jsUnitValue(s string) int64 {
+	if len(s) < 2 || s[0] != '\\' {
+		return -1
+	}
+	hexv := func(h string) int64 {
+		var v int64
+		for i := 0; i < len(h); i++ {
+			c := h[i]
+			switch {
+			case c >= '0' && c <= '9':
+				v = v*16 + int64(c-'0')
+			case c >= 'a' && c <= 'f':
+				v = v*16 + int64(c-'a') + 10
+			case c >= 'A' && c <= 'F':
+				v = v*16 + int64(c-'A') + 10
+			default:
+				return -1
+			}
+		}
+		return v
+	}
+	switch s[1] {
+	case 'u':
+		if len(s) != 6 {
+			return -1
+		}
+		return hexv(s[2:])
+	case 'x':
+		if len(s) != 4 {
+			return -1
+		}
+		return hexv(s[2:])
+	}
+	if len(s) != 2 {
+		return -1
+	}
+	switch s[1] {
+	case 'n':
+		return '\n'
+	case 't':
+		return '\t'
+	case 'r':
+		return '\r'
+	case 'f':
+		return '\f'
+	case 'v':
+		return '\v'
+	case 'b':
+		return '\b'
+	case '0', '1', '2', '3', '4', '5', '6', '7', '8', '9', '\n', '\r':
+		return -1
+	}
+	return int64(s[1]) // identity escape
 }
